@@ -12,20 +12,25 @@ EXTENDS Store, Json, IOUtils, TLCExt
 
 TraceLog == ndJsonDeserialize(IOEnv.VERIF_TRACE)
 
-VARIABLE l      \* next line to consume
-tvars == <<vars, l>>
+VARIABLES l,    \* next line to consume
+          bad   \* crash images whose recovery the specification rejects (collected, reported at the end)
+tvars == <<vars, l, bad>>
 
 Ev == TraceLog[l]
-IsEvent(e) == l <= Len(TraceLog) /\ TraceLog[l].ev = e /\ l' = l + 1
+IsEvent(e) == l <= Len(TraceLog) /\ TraceLog[l].ev = e /\ l' = l + 1 /\ (e \notin {"Recovered", "Precommit"} => UNCHANGED bad)
 
-TraceInit == StoreInit(FALSE, FALSE) /\ l = 1
+TraceInit == StoreInit(FALSE, FALSE) /\ l = 1 /\ bad = <<>>
 
 TReset ==
   /\ IsEvent("Reset")
   /\ synced' = Ev.synced /\ extAllow' = Ev.ext /\ log' = <<>> /\ committed' = 0 /\ allowed' = 0
-  /\ cflushed' = 0 /\ cdurable' = 0 /\ hist' = <<>> /\ acked' = {} /\ cont' = <<>> /\ seen' = <<>> /\ open' = TRUE
+  /\ cflushed' = 0 /\ cdurable' = 0 /\ hist' = <<>> /\ acked' = {} /\ cont' = <<>> /\ seen' = <<>> /\ everPre' = {} /\ open' = TRUE
 
-TPrecommit   == IsEvent("Precommit") /\ Precommit(Ev.id, Ev.alh, Ev.prev, Ev.bl, Ev.blOk, Ev.aht, Ev.maxActive)
+\* a precommit whose embedded BlRoot is not the reference root over the earlier accumulated hashes breaks the
+\* chain invariant of C02; it is collected (not a dead end) so that the rest of the execution is still examined
+TPrecommit   == /\ IsEvent("Precommit") /\ Precommit(Ev.id, Ev.alh, Ev.prev, Ev.bl, TRUE, Ev.aht, Ev.maxActive)
+                /\ bad' = IF Ev.blOk THEN bad
+                          ELSE Append(bad, [k |-> Ev.id, mode |-> "live", line |-> l, verdict |-> [blroot |-> FALSE]])
 TVLogsSynced == IsEvent("VLogsSynced") /\ VLogsSynced
 TTxLogSynced == IsEvent("TxLogSynced") /\ TxLogSynced(Ev.upto)
 TCLogFlushed == IsEvent("CLogFlushed") /\ CLogFlushed(Ev.from, Ev.to)
@@ -41,7 +46,12 @@ TOpened      == IsEvent("Opened") /\ Opened(Ev.c, Ev.reloaded)
 TState       == IsEvent("State") /\ Ev.committed = committed
                 /\ Ev.alh = (IF committed = 0 THEN Genesis ELSE hist[committed]) /\ UNCHANGED vars
 
-TraceNext == \/ TReset \/ TPrecommit \/ TVLogsSynced \/ TTxLogSynced \/ TCLogFlushed \/ TCLogSynced
+\* outcome of the real recovery of a crash image taken at this point of the execution (C03)
+TRecovered   == /\ IsEvent("Recovered") /\ UNCHANGED vars
+                /\ LET v == RecoveredVerdict(Ev) IN
+                   bad' = IF VerdictOk(v) THEN bad ELSE Append(bad, [k |-> Ev.k, mode |-> Ev.mode, line |-> l, verdict |-> v])
+
+TraceNext == TRecovered \/ \/ TReset \/ TPrecommit \/ TVLogsSynced \/ TTxLogSynced \/ TCLogFlushed \/ TCLogSynced
              \/ TCommitted \/ TDiscard \/ TAllow \/ TAck \/ TObserved \/ TClose \/ TOpened \/ TState
 TraceSpec == TraceInit /\ [][TraceNext]_tvars
 
@@ -50,4 +60,6 @@ TraceAccepted ==
   LET d == TLCGet("stats").diameter IN
   IF d - 1 = Len(TraceLog) THEN TRUE
   ELSE Print(<<"TRACE-REJECTED-AT-LINE", d, IF d <= Len(TraceLog) THEN TraceLog[d] ELSE "eof">>, FALSE)
+\* printed once, in the last state: the rejected crash images
+ReportBad == (l = Len(TraceLog) + 1 /\ bad # <<>>) => PrintT(<<"JSON:", ToJson([bad |-> bad])>>)
 =============================================================================
